@@ -460,7 +460,10 @@ func (in *vfGateInst) dial() (*vfGateConn, error) {
 	for c.client == nil {
 		in.nsqd.tcpServer.conns.Range(func(k, v interface{}) bool {
 			if k.(net.Addr).String() == me {
-				c.client = v.(*clientV2)
+				// (since F23 the bare net.Conn is registered first, the client object once the magic is read)
+				if cl, ok := v.(*clientV2); ok {
+					c.client = cl
+				}
 				return false
 			}
 			return true
